@@ -6,7 +6,7 @@ from check import *
 SRCS = ['Numerics.cpp', 'Special_Functions.cpp', 'Utilities.cpp']
 KEEP = ['verif_c01_build', 'verif_c01_layout', 'verif_c01_eval', 'verif_c01_call', 'verif_c01_deriv', 'verif_c01_locate', 'verif_c08_integrate', 'verif_c08_locmin', 'verif_c08_locmax',
         'verif_c08_globmin', 'verif_c08_globmax', 'verif_c08_setpref', 'verif_c08_multiply', 'verif_c09_copy', 'verif_c01_build2d', 'verif_c01_eval2d', 'verif_c08_globmin2d',
-        'verif_c08_globmax2d', 'verif_c08_setpref2d', 'verif_c08_multiply2d', 'verif_c01_setcache2d']
+        'verif_c08_globmax2d', 'verif_c08_setpref2d', 'verif_c08_multiply2d', 'verif_c01_setcache2d', 'verif_c09_new']
 NATIVE_SRCS = ['Numerics.cpp', 'Special_Functions.cpp', 'Utilities.cpp', 'Linear_Algebra.cpp', 'Integration.cpp', 'Statistics.cpp', 'Natural_Units.cpp']
 
 GMOD = {}
@@ -25,10 +25,52 @@ def layout(mod):
     out = st.alloc(8 * 16)
     it.execute('@verif_c01_layout', [out], st)
     v = [st.load(out + 8 * i, 8) for i in range(16)]
+    known_end = max(v[1:12]) + 24
     names = ['size', 'N', 'x_values', 'function_values', 'prefactor', 'a', 'b', 'c', 'd', 'jLast', 'correlated_calls', 'domain', 'size2d', 'x_int', 'y_int', 'prefactor2d']
-    return dict(zip(names, v))
+    L = dict(zip(names, v))
+    # layout guard: the free-field harnesses enumerate the object state member by member; a member they do not know makes their claims incomplete
+    known_bytes = 4 + 4 + 24 * 2 + 8 + 24 * 4 + 4 + 1 + 3 + 24      # N, pad, x_values, function_values, prefactor, a..d, jLast, correlated_calls, pad, domain
+    L['complete'] = (v[0] == known_bytes)
+    return L
 
 class Obj: pass
+
+def layout_guard(L, what):
+    if L['complete']: return []
+    return [ob('layout-guard/' + what, 'undecided', detail='class Interpolation has members unknown to the representation invariant (sizeof %d): free-field (inductive) obligations are not run; history obligations on real-constructor objects still are' % L['size'])]
+
+# ---- histories on real-constructor objects
+OPS = {'interpolate': ('@verif_c01_eval', 1, []), 'derivative1': ('@verif_c01_deriv', 1, [1]), 'derivative0': ('@verif_c01_deriv', 1, [0]), 'integrate': ('@verif_c08_integrate', 2, []), 'locate': ('@verif_c01_locate', 1, []),
+       'local_min': ('@verif_c08_locmin', 2, []), 'local_max': ('@verif_c08_locmax', 2, []), 'global_min': ('@verif_c08_globmin', 0, []), 'global_max': ('@verif_c08_globmax', 0, []),
+       'set_prefactor': ('@verif_c08_setpref', 1, []), 'multiply': ('@verif_c08_multiply', 1, [])}
+NATIVE_OP = {'interpolate': 0, 'derivative1': 1, 'derivative0': 5, 'integrate': 10, 'local_min': 11, 'local_max': 12, 'global_min': 13, 'global_max': 14, 'locate': 20, 'set_prefactor': 30, 'multiply': 31, 'copy': 40}
+
+def run_history(mod, N, seq, prefix=''):
+    """seq: list of (opname, [arg terms]); real constructor on symbolic tables, then the operations in order.  Returns (xs, ys, list of (state, last result))"""
+    it = Interp(mod, limits=Limits(feas_ms=300)); st = it.new_state()      # short feasibility budget: 'unknown' keeps the path (sound, more paths)
+    xs = [z3.Real('x%d' % i) for i in range(N)]; ys = [z3.Real('y%d' % i) for i in range(N)]
+    for i in range(N - 1): st.pc.append(xs[i] < xs[i + 1])
+    ps = it.execute('@verif_c09_new', [N, st.put_doubles(xs), st.put_doubles(ys)], st)
+    live = [p for p in ps if p.end is None]
+    if not live or len(live) != len(ps): raise Unsupported('constructor paths: %s' % [str(p.end) for p in ps])
+    frontier = [(p.st, p.ret, None) for p in live]
+    for name, args in seq:
+        nxt = []
+        for st_, obj, last in frontier:
+            if name == 'copy':
+                # copy-assign into a default-constructed second object and continue on the copy
+                st2 = st_.fork(); L = layout(mod)
+                dst = mkobj(it, st2, L, 3, 0, 0, tag='cp')
+                q = it.execute('@verif_c09_copy', [dst.addr, obj], st2)
+                nxt += [(p.st, dst.addr, last) for p in q if p.end is None]; continue
+            fn, na, extra = OPS[name]
+            for p in it.execute(fn, [obj] + list(args) + extra, st_.fork()):
+                if p.end is None: nxt.append((p.st, obj, p.ret if p.ret is not None else last))
+                elif p.end.kind != 'exit': raise Unsupported('history op %s ended with %s' % (name, p.end))
+        frontier = nxt
+        if len(frontier) > 600: raise Unsupported('history frontier too large')
+    return xs, ys, frontier
+
 
 def mkobj(it, st, L, N, jLast=0, corr=0, tag='', pref=None, coeffs=None):
     """Interpolation object with free symbolic fields (tables, coefficients, prefactor) and a given cache state"""
